@@ -62,7 +62,7 @@ def encR {α} (f : α → String) : R α → String
 
 def encOptNat : Option Nat → String
   | none => "~"
-  | some n => toString n
+  | some n => "N" ++ toString n
 
 def encList (l : List Str) : String := "L" ++ toString l.length ++ ":" ++ ",".intercalate (l.map encStr)
 def encPairs (l : List (Str × Str)) : String :=
